@@ -1126,15 +1126,82 @@ func genMatchCase(r *rng) (bson.D, bson.D) {
 	return d, g.filter(d, 3)
 }
 
-// family `matchref`: same pairs from the well-formed stream; the model side
-// answers with the REFERENCE semantics on the core domain (Spec/RunRef.v)
+// family `matchref`: pairs from the (mostly) well-formed stream.  Observable:
+// the REAL Match result, then this harness's rendering of the reference
+// semantics and of the domain classification (ref_match.go):
+//   <T|F|ERR> -                    outside the property's domain D1–D4
+//   <T|F|ERR> <T|F> core           inside `core`
+//   <T|F|ERR> <T|F> <signature>    inside D1–D4, in the finding class <signature>
+// The Coq side (Spec/RunRef.v) prints the model's Match result, RefMatch.holds
+// and RefMatch.domain_class.  Whether the real matcher AGREES with the
+// reference is judged by the oracle `reference` below, which can tell a known
+// finding class from any other disagreement.
+func genMatchRefPair(r *rng) (bson.D, bson.D) {
+	d := genMatchDoc(r)
+	g := &fgen{r: r, mal: r.chance(1, 30)}
+	return d, g.filter(d, 3)
+}
+
+func matchRefObs(d bson.D, f bson.D) (real, ref, cls string) {
+	real = matchObs(d, f)
+	cls = refDomainClass(d, f)
+	if cls != "" {
+		ref = tf(refHolds(d, f))
+	}
+	return
+}
+
+// signature of a disagreement inside `core`: the two repaired classes are
+// recognised by the shape of the filter (their signatures are recorded as
+// fixed, so they suppress nothing), everything else is a plain disagreement
+func coreDisagreementSignature(f bson.D) string {
+	if anyEntry(f, func(k string, x interface{}) bool {
+		if k != "$type" {
+			return false
+		}
+		spec, ok := refTypeSpec(x)
+		return ok && refHasTypeByte(spec, 10)
+	}) {
+		return "C10:type-null-on-missing-field"
+	}
+	if anyEntry(f, func(k string, x interface{}) bool {
+		if arr, ok := x.(bson.A); ok && k == "$all" {
+			for _, v := range arr {
+				if _, isArr := v.(bson.A); isArr {
+					return true
+				}
+			}
+		}
+		return false
+	}) {
+		return "C10:all-mixed-operands"
+	}
+	return "C10:reference-disagreement"
+}
+
+// the verdict on one pair: "" when the real matcher agrees with the reference
+// (or the pair is outside D1–D4), else the signature of the disagreement
+func matchRefVerdict(d bson.D, f bson.D) (sig, detail string) {
+	if unmodelledSyn(d, f) {
+		return "", ""
+	}
+	real, ref, cls := matchRefObs(d, f)
+	if cls == "" || real == ref {
+		return "", ""
+	}
+	sig = cls
+	if cls == "core" {
+		sig = coreDisagreementSignature(f)
+	}
+	return sig, "real=" + real + " reference=" + ref
+}
+
 func init() {
 	register(&family{
 		name: "matchref",
 		gen: func(r *rng) string {
-			d := genMatchDoc(r)
-			g := &fgen{r: r, mal: r.chance(1, 30)}
-			return "(matchref " + enc(d) + " " + enc(g.filter(d, 3)) + ")"
+			d, f := genMatchRefPair(r)
+			return "(matchref " + enc(d) + " " + enc(f) + ")"
 		},
 		run: func(c *sx) string {
 			d := decValue(c.list[1]).(bson.D)
@@ -1142,16 +1209,101 @@ func init() {
 			if unmodelledSyn(d, f) {
 				return "UNMODELLED"
 			}
-			return matchObs(d, f)
+			real, ref, cls := matchRefObs(d, f)
+			if cls == "" {
+				return real + " -"
+			}
+			return real + " " + ref + " " + cls
 		},
 		classify: func(c *sx, obs string) ([]string, bool) {
 			d := decValue(c.list[1]).(bson.D)
 			f := decValue(c.list[2]).(bson.D)
-			labels, nt := classifyMatch(d, f, obs)
+			parts := strings.Fields(obs)
+			labels, nt := classifyMatch(d, f, parts[0])
+			switch {
+			case len(parts) == 3 && parts[0] == parts[1]:
+				labels = append(labels, "domain:"+parts[2]+":agrees")
+			case len(parts) == 3:
+				labels = append(labels, "domain:"+parts[2]+":differs")
+			default:
+				labels = append(labels, "domain:outside")
+			}
 			sort.Strings(labels)
 			return labels, nt
 		},
 	})
+
+	// replay vehicle of the oracle `reference` (model-free, no classify):
+	//   (matchrefcase <doc> <filter>) -> OK | FAIL <signature> real=… reference=…
+	register(&family{
+		name: "matchrefcase",
+		gen: func(r *rng) string {
+			d, f := genMatchRefPair(r)
+			return "(matchrefcase " + enc(d) + " " + enc(f) + ")"
+		},
+		run: func(c *sx) string {
+			d := decValue(c.list[1]).(bson.D)
+			f := decValue(c.list[2]).(bson.D)
+			sig, detail := matchRefVerdict(d, f)
+			if sig == "" {
+				return "OK"
+			}
+			return "FAIL " + sig + " " + detail
+		},
+	})
+
+	registerOracle(&oracle{prop: "C10", name: "reference", run: oracleC10Reference})
+}
+
+// oracle `reference`: the real mongokit.Match against the reference semantics
+// on the property's domain D1–D4.  A disagreement inside a finding class
+// carries that class's signature (known_findings.json); a disagreement inside
+// `core` carries C10:reference-disagreement.
+func oracleC10Reference(r *rng, n int, st *oracleStats) []oracleFailure {
+	st.Rule = "pairs from the match grammar (well-formed stream); the real Match result against the reference semantics (harness/ref_match.go, tied to Spec/RefMatch.v by family matchref) whenever the pair lies in D1–D4; a disagreement is attributed to the finding class the pair lies in (signature of the class) or, inside core, reported as C10:reference-disagreement; non-trivial = the pair lies in D1–D4"
+	var fails []oracleFailure
+	perSig := map[string]int{}
+	for i := 0; i < n; i++ {
+		d, f := genMatchRefPair(r)
+		st.Evaluations++
+		if unmodelledSyn(d, f) {
+			st.Dist["unmodelled"]++
+			continue
+		}
+		var real, ref, cls string
+		func() {
+			defer func() {
+				if p := recover(); p != nil {
+					real, cls = "PANIC", "core"
+				}
+			}()
+			real, ref, cls = matchRefObs(d, f)
+		}()
+		if cls == "" {
+			st.Dist["outside"]++
+			continue
+		}
+		st.Nontrivial++
+		if real == ref {
+			st.Dist[cls+":agrees"]++
+			continue
+		}
+		st.Dist[cls+":differs"]++
+		sig := cls
+		if cls == "core" {
+			sig = coreDisagreementSignature(f)
+		}
+		perSig[sig]++
+		if perSig[sig] <= 3 {
+			fails = append(fails, oracleFailure{Property: "C10", Signature: sig,
+				What:   "the real Match and the reference semantics differ on a pair of the property's domain: real=" + real + " reference=" + ref,
+				Family: "matchrefcase", Case: "(matchrefcase " + enc(d) + " " + enc(f) + ")"})
+		}
+		if len(st.Samples) < 3 {
+			st.Samples = append(st.Samples, "(matchrefcase "+enc(d)+" "+enc(f)+") => real="+real+" reference="+ref+" class="+cls)
+		}
+	}
+	return fails
 }
 
 func init() {
